@@ -38,6 +38,10 @@ CHECKS = {
    technique="bounded-exhaustive enumeration of instance paths (1/2/3-key lists in alphabetical and non-alphabetical key order, key values over a separator alphabet) through three round trips on the real code, and of all ordered pairs of enumerated paths for the collision clauses",
    text="Every instance path of six lists with key values from an explicit alphabet containing '/', '_', ':', '=', space and brackets goes through ToPath(ToStrings(p)), ParsePath(ToXPath(p)) and a real TransactionSet whose response, device payload, stores and GetData must name exactly p; with only p stored, every other enumerated path q (all ordered pairs) must not exist, have no branch precedence and return nothing from GetData.",
    note="Exhaustive within the printed lists and alphabets; ',' is excluded (cache library separator); key values with regular-expression meta characters other than brackets are not in the alphabet."),
+ "C12": dict(level="exploration", engine="E3-inputs", design="DESIGN.md §3 C12",
+   technique="exhaustive cross product of 23 leaf / leaf-list types x boundary and interior values x 4 client input forms through the real transaction pipeline, observed in 12 output forms with a denotation function; device XML text through the NETCONF adapter; EqualTypedValues on all pairs of produced typed values",
+   text="Every (type, value, input form) is sent through the real TransactionSet; the value must denote the same datum at the recording device (proto typed value, gNMI typed value, JSON, JSON_IETF, XML text), in the intended and running store and in GetData STRING/PROTO/JSON/JSON_IETF. Each value is also fed as device XML text through XML2sdcpbConfigAdapter. All typed values produced for a leaf are compared pairwise: EqualTypedValues must agree with equality of denotation. The listed finite domain is enumerated completely.",
+   note="Exhaustive only within the printed types and values (uint64 up to 2^64-1, decimal64 with fraction-digits 1/2/18, negative and leading-zero fractions, every union member, identityref, empty, leaf-lists)."),
  "C14": dict(level="model_checking", engine=E1, design="DESIGN.md §3 C14",
    technique="explicit-state BFS over histories (states) x exhaustive request menu (17 path sets x 5 datastore/data-type selections x 4 encodings) on the real Datastore.Get, compared with an element-wise prefix filter of the dumped stores; JSON documents interpreted by a schema-guided walker",
    text="Every state reached by the history search (plus preloaded running and STATE content with prefix-related names: mtu/mtu-ext, if/ifx, e1/e10) is queried with the whole request menu through Datastore.Get with a draining consumer. The returned leaf set (STRING/PROTO directly, JSON/JSON_IETF through the schema-guided interpreter) must equal the element-wise filter of the store dump; unknown paths and unsupported combinations must fail without data; the response channel is always closed; no panic, no hang.",
@@ -88,7 +92,7 @@ m = {
  },
  "engines": [
    {"name": "E2-faults", "path": "harness/h/check_c07.go", "serves_properties": ["C07", "C18"], "kind_free_text": "fault enumeration: every assignment of failure behaviours to the collaborator calls of one operation, each executed on the real code"},
-   {"name": "E3-inputs", "path": "harness/h/check_c15.go", "serves_properties": ["C11", "C15"], "kind_free_text": "bounded-exhaustive enumeration of inputs / store contents over explicit finite domains, each case executed on the real code and judged by a reference model"},
+   {"name": "E3-inputs", "path": "harness/h/check_c15.go", "serves_properties": ["C11", "C12", "C15"], "kind_free_text": "bounded-exhaustive enumeration of inputs / store contents over explicit finite domains, each case executed on the real code and judged by a reference model"},
    {"name": E1, "path": "harness/h/explore.go", "serves_properties": sorted(k for k, v in CHECKS.items() if v["engine"] == E1),
     "kind_free_text": "level-synchronous explicit-state search; successor = replay of the shortest history on a fresh real Datastore/cache instance + one operation; canonical state key without timestamps; per-property oracle plug-ins"},
  ],
